@@ -8,3 +8,39 @@ claim('C01',
       "cancellation for all N, spacings, coefficients, signs); rounding and solver accuracy are not decided.",
       "Trusted: CPython ast; the fail-closed model of the numpy subset (DESIGN.md app. A); exact Fraction polynomial algebra; telescoping-sum theorem.",
       "abstract interpretation of the AST into symbolic stencils + exact polynomial identity checking", "DESIGN.md 5 C01")
+
+claim('C03',
+      "Static: boundary.py (6 ghost-value and 6 boundary-row implementations) is interpreted symbolically for all 9 classes and every admissible "
+      "per-axis periodic configuration; the ghost formula is proved to satisfy the assembled boundary row, the row to equal the documented Robin "
+      "relation including the 1/r and 1/(r sin theta) metric factors, periodic wraps to hit the opposite end, (a,b,c) scale invariance, plotprofile "
+      "face averages and ghost-row coverage - all as exact identities for symbolic sizes, spacings, coefficient arrays and fields. Plus syntactic "
+      "guard/body agreement (B4) and the recompute-after-solve path rule (B6).",
+      "Trusted: numpy-subset model incl. advanced-index scatter and q-positioned triplet assembly; exact algebra. Rounding not decided.",
+      "abstract interpretation of the AST (symbolic ghost formulas and boundary rows) + exact identity checking; AST guard rule", "DESIGN.md 5 C03")
+claim('C05',
+      "Static: for all 9 classes the stencil row of diffusionTerm/convectionTerm/convectionUpwindTerm (with and without a separate upwind field), "
+      "applied to a symbolic field including ghost values, is proved identical to the value produced by the interpreted chain "
+      "divergenceTerm(coef*gradientTerm|linearMean|upwindMean(phi)) at the generic cell and at cells adjacent to every boundary, for every sign "
+      "pattern of the face velocities (finite case split); TVD RHS vanishes for FL=0 and upwind-TVD(FL=1)=central on uniform grids.",
+      "Trusted: numpy-subset model; exact algebra with indicator case splits. Rounding not decided.",
+      "abstract interpretation of the AST into stencils + exact polynomial identity checking", "DESIGN.md 5 C05")
+claim('C06',
+      "Static: row sums of every extracted stencil (27 matrix implementations) are proved to be 0 (diffusion, per axis block) or equal to the "
+      "extracted divergenceTerm(u) (central, upwind, all sign patterns); TVD RHS vanishes identically for constant phi; source terms are diagonal. "
+      "Symbolic in sizes, spacings and coefficients, at generic and boundary-adjacent cells.",
+      "Trusted: numpy-subset model; exact algebra. The steady-state corollaries rely on C04.", 
+      "abstract interpretation of the AST into stencils + exact polynomial identity checking", "DESIGN.md 5 C06")
+claim('C10',
+      "Static: mesh.py is interpreted symbolically for both constructor forms of all 9 classes; sizes, centres, faces, ghost sizes, dims and the "
+      "(N,L)/face-form agreement are proved as identities, each _getCellVolumes is compared per cell with the geometric volume formula of the "
+      "property statement, positivity is decided in a sign domain, and the coordinate-label properties are partially evaluated for 9 classes x 6 "
+      "labels x 3 property objects against the documented table.",
+      "Trusted: numpy-subset model; exact algebra; preconditions (increasing faces, r>=0) to drop np.abs.",
+      "abstract interpretation of mesh.py + exact identity checking; partial evaluation of label properties", "DESIGN.md 5 C10")
+claim('C11',
+      "Static: every mean function is interpreted for all 9 classes and all axes; each face value (generic and boundary faces) is proved to have "
+      "two-cell support, weights summing to one and non-negative, the documented size weighting (linear: exact for linear fields; arithmetic/"
+      "geometric/harmonic: identical weights), the donor/boundary-average/tie behaviour of upwindMean for every sign case, and no vanishing "
+      "denominator on data containing zeros unless a zero guard selects 0 first.",
+      "Trusted: numpy-subset model incl. the 1-D map-loops; exact algebra; weighted AM-GM-HM theorem for the ordering clause.",
+      "abstract interpretation of the AST + exact identity checking + sign / zero-domain analysis", "DESIGN.md 5 C11")
